@@ -358,13 +358,37 @@ def step (cfg : Cfg) (w : World) (st : State) (r : Req) : World × State × Out 
     | some (_, .dir _) => (w, st, ⟨getDirSizeResult (walkSize w dirSizeFuel p), false⟩)
     | _ => (w, st, ⟨getDirSizeResult (neg1 8), false⟩)
 
+/-- A WRITE_FILE whose payload ends before the announced length: the announced length and the part
+    of the payload that did arrive. -/
+def truncatedWrite (input : Bytes) : Option (Nat × Bytes) :=
+  if input.length < cmdSize then none else
+  if getField Gen.proto_layout_Command "OpCode" input != Gen.proto_CmdWriteFile then none else
+  let data := slice input ((Layout.field Gen.proto_layout_Command "Data").getD (2, 14)).1 14
+  let n := getField Gen.proto_layout_WriteFileCommand "BytesToWrite" data
+  let part := input.drop cmdSize
+  if part.length < n then some (n, part) else none
+
+/-- The payload is streamed into the file as it arrives, so what a truncated WRITE_FILE did deliver is
+    in the file when the connection ends (no answer is sent): the only effect a truncated request has. -/
+def partialWrite (cfg : Cfg) (w : World) (st : State) (input : Bytes) : World :=
+  match truncatedWrite input with
+  | none => w
+  | some (n, part) =>
+    if n > maxAnnounce || !cfg.allowWrite || part.isEmpty then w else
+    match st.wo with
+    | none => w
+    | some wo =>
+      match w.inode? wo.ino with
+      | some f => w.setInode wo.ino ⟨Content.ofBytes (f.content.all ++ part), recent⟩
+      | none => w
+
 /-- the loop of serveConn over the bytes a client sends; `fuel` ≥ number of requests.
     Returns the final world and state, everything sent, and the number of input bytes consumed. -/
 def serve (cfg : Cfg) : Nat → World → State → Bytes → Bytes → Nat → World × State × Bytes × Nat
   | 0, w, st, _, acc, used => (w, st, acc, used)
   | fuel + 1, w, st, input, acc, used =>
     match decode input with
-    | .incomplete => (w, st, acc, used + input.length)   -- the blocked read swallowed what there was
+    | .incomplete => (partialWrite cfg w st input, st, acc, used + input.length)   -- the blocked read swallowed what there was
     | .unknown _ => (w, st, acc, used + cmdSize)
     | .req r rest =>
       let (w', st', out) := step cfg w st r
